@@ -18,6 +18,9 @@ CLAIMED = {
     "C13": ("proof", "round-trip theorem for every well-formed registry (all attributes, children, values, arbitrary integers and strings), legacy-layout theorem; the marshmallow field semantics of the model are tied to the library by ~6000 differential cases per run; JSON text layer assumed"),
     "C14": ("proof", "PARTIAL: in the model the read error is the only failure (by construction); proved: what is accepted, atomicity of a failing load, empty file; that no other exception class escapes the real load is decided by the differential run"),
     "C15": ("proof", "the property is proved REFUTED for save-in-place (known finding), its exact extent is a theorem (old / empty registry / read error / new per crash point) and the property is proved for write-temp-then-rename; crash points are enumerated on the real save through an intercepting file layer"),
+    "C16": ("proof", "PARTIAL: for every schedule of the two-task transition system (main task and saver, any interleaving at suspension points) leaving the context ends with the saver finished, the file holding the final registry, one disconnect and the raised exception (never CancelledError); asyncio task semantics are encoded assumptions; cadence on a virtual clock"),
+    "C17": ("proof", "PARTIAL: for every chunking and read timing the completed reads are the first reads of the complete stream (theorem about the readuntil model), lines in order, over-long / incomplete / undecodable as read errors, writes are the concatenated UTF-8 (strict UTF-8 round trip proved); StreamReader itself is third-party and validated against the model on every run"),
+    "C18": ("proof", "PARTIAL: topic/line mapping theorems for every prefix and payload (publish form, read back, echo decodes to the same message), subscriptions cover every command topic, FIFO and not-deaf theorems about the receive loop model; broker and aiomqtt replaced by a fake client"),
     "C19": ("proof", "PARTIAL: table monotonicity and identical dispatch chains per version pair by complete computation on the generated tables, heartbeat difference as theorems; end-to-end equality of histories is decided by running two real gateways and the model"),
 }
 NOT_YET = {}
